@@ -125,7 +125,8 @@ EffPath(u)  == IF u.quirk = "fragment_at" THEN "empty" ELSE u.path
 QueryClasses == {"query", "semicolon", "badescape"}
 G_C13_NoQuery(u, o) == o.redirected => EffQuery(u) \notin QueryClasses
 \* a percent-encoded dot is a dot (RFC 3986 unreserved; WHATWG "double-dot path segment"): %2e%2e and .%2E are parent-directory segments too
-DotDotPaths == {"dotdot", "encdotdot", "mixdotdot"}
+\* traildotdot / enctraildotdot: the parent-directory segment is the LAST one (nothing after it)
+DotDotPaths == {"dotdot", "encdotdot", "mixdotdot", "traildotdot", "enctraildotdot"}
 G_C13_NoDotDot(u, o) == o.redirected => EffPath(u) \notin DotDotPaths
 G_C13_Host(u, c, o) == (o.redirected /\ c \in {"domains", "both"}) => BrowserLegit(u)
 G_C13_Pattern(r, o) == (o.redirected /\ r.client \in {"patterns", "both"} /\ r.site # "cors") => PatternMatches(r.url)
@@ -143,7 +144,7 @@ LookalikeSchemes == {"httpsx", "https+app", "HTTPS.app"}
 \* validator_after_loose: the validator is asked about the same URL for the permissive client first - what it then says
 \* for this client must not depend on that
 InC13(r) == \E sc \in {"https", "http", "HTTPS", "javascript", "none", "schemerel"} \cup LookalikeSchemes, h \in HostClasses,
-               p \in {"none", "443", "8443"}, pa \in {"plain", "empty", "dotdot", "encdotdot", "mixdotdot", "double"},
+               p \in {"none", "443", "8443"}, pa \in {"plain", "empty", "dotdot", "encdotdot", "mixdotdot", "traildotdot", "enctraildotdot", "double"},
                q \in {"none", "query", "emptyq", "semicolon", "badescape"}, k \in Quirks, c \in ClientCfgs,
                site \in {"validator", "authorize", "cors", "validator_after_loose"} :
                /\ site = "cors" => (pa = "plain" /\ q = "none" /\ k \in {"none", "userinfo_domain", "userinfo_pw"})
